@@ -422,33 +422,24 @@ def register_rules(ctx, chk, facts, prog, file):
     st = ip.new_state()
     vs = ip.arg_object(st, 'video')
     rs = ip.run(V + 'get_lcd_status', [vs], st)
-    bad = None
-    n = 0
-    for r in rs:
-        if r.status != 'ok':
-            bad = 'diverges'
-            continue
-        n += 1
-        env = r.state.env
-        prov = bit_provenance(r.ret, env)
-        for bit, fld in ((6, 'interrupt_on_lyc'), (5, 'interrupt_on_mode_2'), (4, 'interrupt_on_mode_1'), (3, 'interrupt_on_mode_0')):
-            v = None
-            for d in r.state.decisions:
-                if fld in fmt(d[0]) and d[0][0] == 's':
-                    v = env.const_of(d[0])
-            if v is None or prov[bit] != v:
-                bad = 'bit %d is %s, enable %s is %s' % (bit, prov[bit], fld, v)
-        eqv = None
-        for d in r.state.decisions:
-            t = d[0]
-            if t[0] == 'o' and t[2] in ('eq', 'ne') and 'ly_compare' in fmt(t) and 'current_line' in fmt(t):
-                eqv = env.const_of(t) if t[2] == 'eq' else 1 - env.const_of(t)
-        if eqv is None or prov[2] != eqv:
-            bad = 'coincidence bit is %s, LY==LYC is %s' % (prov[2], eqv)
-        for bit in (0, 1):
-            p_ = prov[bit]
-            if not (p_ is not None and p_ not in (0, 1) and p_[0] == 'in' and p_[1][3] and p_[1][3][2] == 'current_mode' and p_[2] == bit):
-                bad = 'bit %d is not bit %d of the current mode (%s)' % (bit, bit, p_)
+    # value level: STAT = lyc_en<<6 | mode2_en<<5 | mode1_en<<4 | mode0_en<<3 | (LY == LYC)<<2 | mode, however it is composed
+    from .. import valfn
+    from ..bdd import BV, Unsupported
+
+    def stat_ref(m, F):
+        out = F.u('current_mode', 8) & 3
+        for bit, fld in ((6, 'interrupt_on_lyc'), (5, 'interrupt_on_mode_2'), (4, 'interrupt_on_mode_1'),
+                         (3, 'interrupt_on_mode_0')):
+            out = out | BV.from_bit(m, F.b(fld), 8).shl(bit)
+        eq = F.u('ly_compare', 8).eq(F.u('current_line', 8))
+        return out | BV.from_bit(m, eq, 8).shl(2)
+    n = len(rs)
+    try:
+        bad = valfn.compare(rs, stat_ref, width=8)
+    except Unsupported as e:
+        chk.error('C14.4 stat-register: outside the bit-vector fragment: %s' % e.why)
+        bad = None
+        n = 0
     if bad or not n:
         chk.fail('C14.4', 'stat-register', 'get_lcd_status: %s' % (bad or 'no path'), file, None)
     else:
